@@ -16,6 +16,7 @@ RULES = {
     "D2": U.rule_D2,
     "D3": S.rule_D3,
     "W1": S.rule_W1,
+    "G4": S.rule_G4,
     "G1c": G.rule_G1c,
     "G1r": G.rule_G1r,
     "G2c": G.rule_G2c,
@@ -75,6 +76,14 @@ PROPS = {
         "argument positions; (W1) only the enumerated store primitives obtain a mutable view of the heap or write the stack heads, and "
         "SimpleGarnishData's value list is append-only. Correctness for every interleaving/growth policy and interning are not decided.",
     },
+    "C16": {
+        "rules": ["G4"],
+        "claim": "Decides the 'absent is not an error' clause of C16: inside both implementations of get_list_item / "
+        "get_list_item_with_symbol / get_list_len / get_list_item_iter, their list helpers, and the runtime's index_list / "
+        "access_with_symbol, the locally constructed errors are exactly the reviewed ones (not-a-list, corrupt cell); any other "
+        "constructed error - in particular one that depends on the index value or the item kind - is reported. Order, length and "
+        "that every present key is found are not decided.",
+    },
     "C09": {
         "rules": ["N1", "N2", "N3"],
         "claim": "Decides the no-wrap/no-trap/finiteness clauses of C09 on the code of impl GarnishNumber for SimpleNumber and its helpers: "
@@ -98,6 +107,7 @@ TECHNIQUE = {
     "C13": "path-partitioned abstract interpretation of the Lexer methods' MIR with a typestate on the error slot (assume-guarantee between methods); operator table extraction",
     "C14": "origin (def-use) analysis over resolved HIR: byte-length sources vs character-count sinks; cast scan of the literal parsers",
     "C15": "origin analysis of heap index expressions (interprocedural through parameters and struct fields); sibling cross-check of the six block push functions and copy stanzas; who-may-write tables over resolved calls",
+    "C16": "enumeration of locally constructed error values (resolved constructors) in the list lookup functions of both data impls against a reviewed table",
     "C09": "MIR scan of the number implementation: raw integer BinaryOp/overflow asserts, unchecked std integer calls, overflow-flag dataflow to a branch, FloatToInt casts, dominator check of finiteness tests over Float constructions",
     "C12": "constant/predicate wiring check on the four comparison functions; comparable type-pair arm table",
 }
